@@ -174,12 +174,12 @@ def proc_scenarios(tier, part="all"):
         # two remote events for one LP sent by one call and undone together: two early anti-messages pending on one LP, matched in
         # either order (the list handling of check_early_anti_messages); large state space, explored under a deadline (not closed)
         twice = _pm(2, [8, 1], [1, 2, 8], 1)
-        sc.append(pscen("r_twice_nog", twice, ck=1, maxg=0, deadline=60 if tier == "quick" else 900, j=4 if tier == "quick" else 8))
+        sc.append(pscen("r_twice_nog", twice, ck=1, maxg=0, deadline=60 if tier == "quick" else 300, j=4 if tier == "quick" else 8))
         if tier != "quick":
             rb = [("r_a_H4_ck2", _pm(2, [1, 2], [2, 1, 7], 4), 2, 1), ("r_b3_H4", _pm(3, [7, 0, 1], [7, 2, 1], 4), 1, 0),
                   ("r_ring", _pm(3, [2, 0, 2], [0, 0, 2], 4), 1, 0), ("r_ties_H3", _pm(2, [5, 1], [1, 5, 2], 3), 2, 0)]
             sc = [pscen(n, m, ck=ck, glow=1, deadline=600, j=4) for (n, m, ck, gl) in rs] + sc[-1:]
-            sc += [pscen(n, m, ck=ck, glow=gl, deadline=900, j=8) for (n, m, ck, gl) in rb]
+            sc += [pscen(n, m, ck=ck, glow=gl, deadline=300, j=8) for (n, m, ck, gl) in rb]
         return [(n, a + ["rm=1"]) for (n, a) in sc]
     small = [
         ("a_ck1", A, 1, 0), ("a_ck2", A, 2, 0), ("a_ck3", A, 3, 0), ("a_ck1_glow", A, 1, 1),
